@@ -95,6 +95,58 @@ def gen_history(rng, cfg):
     return out, final
 
 
+def forced_histories(rng, n):
+    """histories of the shape "read acquisition indices, shift them by a mutation, read again" (added after the seeded
+    change C03-m3 — a memoised index table in the acquisition registry — was missed by the random stream):
+      A  a measurement listed AFTER a repeated block that contains measurements; observe; unroll; (observe)
+      B  a measurement deep in a chain; observe; add a measurement that is listed EARLIER (fresh qubit, depth 1); (observe)
+      C  like A, the block nested twice (counts multiply)."""
+    out = []
+    M = 'DispersiveMeasure'
+    for i in range(n):
+        kind = 'ABC'[i % 3]
+        q = rng.randrange(3)
+        h = [['new', 'f1']]
+        obs = rng.choice([['list', 0], ['list', 0], ['copyobs', 0], ['stim', 0]])
+        if kind in 'AC':
+            cnt = rng.randint(2, 3)
+            h.append(['new', f'f{cnt}'])
+            if rng.random() < 0.5:
+                h.append(['op', 1, rng.choice(['Rx180', 'Wait', 'Hadamard']), [q], 'M', None, 0, 0, [], None])
+            h.append(['op', 1, M, [q], 'A', None, rng.randrange(3), 1, [], None])
+            if kind == 'C':
+                h.append(['new', f'f{rng.randint(1, 2)}'])
+                h.append(['sub', 2, 1])
+                if rng.random() < 0.5:
+                    h.append(['op', 0, M, [rng.randrange(3)], 'A', None, rng.randrange(3), 0, [], None])
+                h.append(['sub', 0, 2])
+            else:
+                if rng.random() < 0.5:
+                    h.append(['op', 0, M, [rng.randrange(3)], 'A', None, rng.randrange(3), 0, [], None])
+                h.append(['sub', 0, 1])
+            h.append(['op', 0, M, [rng.choice([q, (q + 1) % 3])], 'A', None, rng.randrange(3), 0, [], None])
+            h.append(list(obs))
+            h.append(['apply', 0])
+            if rng.random() < 0.5:
+                h.append(['list', 0])
+            if rng.random() < 0.3:
+                h.append(['flatten', 0])
+        else:
+            for _ in range(rng.randint(1, 3)):
+                h.append(['op', 0, rng.choice(['Rx180', 'Wait', 'Hadamard']), [q], 'M', None, 0, 0, [], None])
+            h.append(['op', 0, M, [q], 'A', None, rng.randrange(3), 0, [], None])
+            h.append(list(obs))
+            h.append(['op', 0, M, [(q + 1 + rng.randrange(2)) % 3 + 3], 'A', None, rng.randrange(3), 0, [], None])
+            if rng.random() < 0.5:
+                h.append(['list', 0])
+        ncirc = sum(1 for c in h if c[0] in ('new', 'copy'))
+        final = []
+        for c in range(ncirc):
+            final += [['list', c], ['stim', c], ['reps', c]]
+        out.append((h, final))
+    return out
+
+
 def strip(hist):
     return [c for c in hist if c[0] in MUTATORS]
 
@@ -232,6 +284,8 @@ def run(tier, seed):
                           p_gdur=0.06, p_setreg=0.05, max_size=40, final_list=False)
     corpus = load_corpus()
     cases = list(corpus)
+    forced = forced_histories(common.rng_for(seed, PROP + '-forced'), 45 if tier == 'quick' else 900)
+    cases += forced
     for _ in range(n):
         cases.append(gen_history(random.Random(rng.getrandbits(64)), cfg))
     results = evaluate(cases, ambient)
@@ -305,7 +359,7 @@ def run(tier, seed):
         'histories_with_different_final_answers': n_diff,
         'dropped_undefined_observations': sum(r.get('dropped_undefined_observations', 0) for r in results),
         'traces_validated_against_impl': 2 * len(results) - n_dis, 'disagreements': n_dis,
-        'corpus_programs': len(corpus), 'known_findings_printed': oc.known,
+        'corpus_programs': len(corpus), 'forced_histories': len(forced), 'known_findings_printed': oc.known,
         'lean': {k: lean.get(k) for k in ('build_ok', 'build_s', 'lean_s', 'failed', 'forbidden_hits')},
     })
     common.write_evidence(PROP, tier, seed, coverage, time.time() - t0, len(oc.violations),
